@@ -38,13 +38,13 @@ All twenty properties are claimed in `MANIFEST.json`; `not_applicable` is empty.
 | C07 | Prog (`Rel`/`Blind`/`SkipFree`), Stream | `truncated_rejected`, `truncated_rejected_stream_full`, `trailing_ignored(_any)`, `truncated_window_stream(_slice)` (via `Proofs/StreamRev.sr_agree`), `truncated_window_stream_complete`, `truncated_window_stream_any_cache`, `cache_stays_ok` (every cache state, and "raises when the intact read raises": `Proofs/StreamWarm.lean`) | — |
 | C08 | PoseOps | `backends_agree`, `convert_eq`, `missing_all_dims_iff_conf_zero`, `getPoints/selectFrames/sliceStep_agree`, `matmul_point_view` | torch / tf primitives |
 | C09 | PoseOps, Spatial, Interp, Normalize | `visEq_view`, `zeroFilled_exact`, `…_ni` for nine operations, `run_ni`, `program_noninterference`; `Props/C09Norm`: `normalize_ni`, `normalizeDistribution_ni`, `runN_ni`; `Props/C09Repr`: `rep2_ni`, `rep3_ni`, `pointsRepRows_ni`, `forward_ni` (the assembled representation); `Props/C09Ser`: `serialise_ni` (write → read); `interpolateWith_ni` (every interpolation kind) | 3-D normaliser (K4): two-run execution |
-| C10 | Tensor, Masked | `run_refines`, `shapes_identical`, `elementwise_valid_iff`, `strict_sum_valid_iff`, `mean_valid_iff`, `zero_filled_exact` | — |
+| C10 | Tensor, Masked | `run_refines`, `shapes_identical`, `elementwise_valid_iff`, `strict_sum_valid_iff`, `mean_valid_iff`, `zero_filled_exact`, `run_append_only`, `run_keeps_register` (no operation changes an earlier register) | — |
 | C11 | Select | `select_component(_all)`, `pointIndex_go`, `remove_eq_select_complement`, `remove_points_eq_select`, `select_limbs_names`; helpers (`Model/Helpers`): `hidePoints_other`, `hidePoints_hidden`, `mem_namedIndexes`, `correctWrist_other`, `correctWrist_at`; values: `getPoints_cell`, `getComponents_values`, `removeComponents_values` | the name tables of the known formats |
 | C12 | PoseSeq (+ all body models) | `step_inv`, `run_inv`, `wf_pointwise`, `fits_of_inv`, `serialisable`, `normalize_is_transform`, `normalizeDistribution_is_transform`, `unnormalizeDistribution_is_transform`, `normalize_wf` …, `interpolate_any_kind_wf` | dropouts' draws, torch / tf bodies |
 | C13 | Normalize, Normalize3D | `normalize_post`, `normalize_similarity_invariant`, `distribution_mean_zero`, `distribution_std_one`, `unnormalize_inverse`, `normalizeDistribution_post`, `normalizeDistribution_post_all`, `line_p1_at_origin`, `plane_at_z0_partial`, `line_on_negative_y`, `normalize3D_translation_invariant`, `normalize3D_scale_invariant`, `normalize3DBody_independent`, `not_rotation_invariant` | float rounding; `arctan2` / `from_euler` by algebraic meaning; body-level distribution theorem for axes (0,1,2) |
 | C14 | Interp | `linear_affine_exact`, `linear_identity_at_observations`, `linear_within_neighbours`, `interp_frames_fps`, `linspace_ends`, `track_zero_outside_window`, `before_window`; every kind (interpolant = parameter): `interp_frames_fps_any_kind`, `track_zero_outside_window_any_kind`, `track_identity_at_observations` | that scipy's quadratic / cubic interpolants reproduce samples and affine data |
 | C15 | Spatial, PoseOps | `bbox_tight`, `focus_min_zero`, `flip_neg_only`, `flip_involutive`, `matmul_id_2/3`, `matmul_linear_2/3`, `augment_id_when_std_zero`, `focusBody_spec`, `ceil_extent_spec` | cos / sin of the drawn angle |
-| C16 | Frames, PoseOps | `select_exact`, `step_exact`, `dropout_kept`, `dropout_length`, `dropout_count`, `dropout_keeps_one`, `tf_dropout_kept`, `tf_dropout_keeps_one` | the random draws themselves |
+| C16 | Frames, PoseOps | `select_exact`, `select_empty`, `step_exact`, `dropout_kept`, `dropout_length`, `dropout_count`, `dropout_keeps_one`, `tf_dropout_kept`, `tf_dropout_keeps_one` | the random draws themselves |
 | C17 | Represent | `…_missing_zero` (4), `…_not_nan` (3), `distance_formula`, `angle_formula`, `innerAngle_formula`, `pointLine_formula` (Heron), `limbPoints_spec`, `limbPoints_in_range`, `mem_trianglePoints`, `output_size_is_row_count`, `pointsRep_row`, `groupEmbeds_entry`; end to end (`poseRepresentation`): `forward_shape`, `forward_point_entry`, `forward_limb_entry`, `forward_triple_entry` | IEEE overflow / `acos(1+ε)`; `atan`, `acos` |
 | C18 | Concurrent | `step_inv`, `reads_isolated(_gen)`, `finishes_after_two_steps` | preemption inside a source line |
 | C19 | OpenPose | `locate_offset`, `openpose_cell`, `openpose_absent`, `openpose_present`, `openpose_short_component`, `loaded_meta`, `frame_id_conforming`, `frame_id_last_group`, `frame_id_documented`, `loopPerson_cell`, `opCell_eq_loop` (the literal loops = the closed form) | JSON parsing |
@@ -118,20 +118,20 @@ Each sub-agent received only the text of one property and its own scratch git wo
 for a small change that breaks the property, compiles, keeps the 128 passing tests passing and needs something specific to manifest, with a
 demonstration. Each change was confirmed here (demo passes on the clean tree, fails with the patch, no passing test lost — `tools/seed_verify.py`)
 and is kept as `seeded/<id>/{patch.diff, demo.py, notes.md, meta.json}`; none was ever committed to `/repo` (applied with `git apply`, checks run,
-`git checkout -- .`, or — from round 5 on — the checks were pointed at the scratch worktree itself with `POSE_REPO`, so `/repo` was not touched at all). 158 faults: two per property in a first round, two per property in a second round (ids `-c`, `-d`; C05 one), two per property in a third round (ids `-e`, `-f`; C02 one) and two more for the seven properties with the most misses so far in a fourth round (ids `-g`, `-h`: C02, C05, C06, C07, C09, C12, C17) and two for each of the other thirteen properties in a fifth round (ids `-g`, `-h`), in which the sub-agents were
+`git checkout -- .`, or — from round 5 on — the checks were pointed at the scratch worktree itself with `POSE_REPO`, so `/repo` was not touched at all). 198 faults: two per property in a first round, two per property in a second round (ids `-c`, `-d`; C05 one), two per property in a third round (ids `-e`, `-f`; C02 one) and two more for the seven properties with the most misses so far in a fourth round (ids `-g`, `-h`: C02, C05, C06, C07, C09, C12, C17) two for each of the other thirteen properties in a fifth round (ids `-g`, `-h`) and two for every property in a sixth round (ids `-i`, `-j`), in which (from the fourth round on) the sub-agents were
 additionally told which code sites (function names only) had been used before (two faults were discarded as re-discoveries of stored ones: C05-d = C01-d, C02-f = C01-a; two stored C19 patches were rebased by hand, mechanism unchanged, when the F16 repair touched the same loop). **No request was refused** by the permission system or a safety layer at any step.
 
 SEEDTABLE
 
-Forty-six faults were missed on the first run by the check of their own property (bold above; 13 of the 26 of round 5): in forty-three cases the generator did not reach the specific
-trigger (in C17-f and C20-g: the harness never used the same input object twice; in C10-g: it never looked at an operand again after the operation), in one (C18-h) the sampled double preemptions missed the two precise points and the harness's cooperative lock ignored `blocking=False`, in one (C05-c) the faulty reader crashed the node process and the check called that an infrastructure error, and in one (C18-c) the check stopped observing when the
-concurrent reads had returned, so a cache left inconsistent was never read again. The checks were strengthened (last column) and all 158 are now detected by the check of their own property (REGRESSION_SEEDS); full regressions at other seeds showed two faults detected only by
+Sixty-one faults were missed on the first run by the check of their own property (bold above; 13 of the 26 of round 5, 15 of the 40 of round 6): in fifty-seven cases the generator did not reach the specific
+trigger (in C17-f and C20-g: the harness never used the same input object twice; in C10-g: it never looked at an operand again after the operation), in one (C18-h) the sampled double preemptions missed the two precise points and the harness's cooperative lock ignored `blocking=False`, in one (C09-i) the harness itself ran the library under `np.errstate(all="ignore")`, in one (C05-c) the faulty reader crashed the node process and the check called that an infrastructure error, and in one (C18-c) the check stopped observing when the
+concurrent reads had returned, so a cache left inconsistent was never read again. The checks were strengthened (last column) and all 198 are now detected by the check of their own property (REGRESSION_SEEDS); full regressions at other seeds showed two faults detected only by
 luck of the draw — C14-c at seed 3 (C14 now starts with a systematic sweep of frame count × index of the first / last observation) and C03-c at seed 5 (C03 now sweeps every frame boundary in
-milliseconds, one below and one above, at 29.97, 12.5, 25 and 1.5 fps). Round 5 also exposed one more genuine defect of the unchanged tree (F17).
+milliseconds, one below and one above, at 29.97, 12.5, 25 and 1.5 fps). Three more (C09-f, C19-e, C08-e) stopped being detected at seed 0 when round 5 extended a shared generator (the random streams shifted); each got planned cases that run on every seed. Round 5 also exposed one more genuine defect of the unchanged tree (F17).
 What the misses had in common (none was an oracle that accepted a wrong answer; every one was an input the harness never produced): (1) **values and shapes** the
 generators did not reach — non-ASCII names beyond one code point, negative / tiny confidences, rates that are not multiples of 0.01, geometry at another scale, headers above the
-10 KiB prefetch, zero-frame files, non-contiguous arrays, limb ≠ colour counts, a BOM at the start of a name, matrices with a zero column, NaN under the mask, extents beyond 65 535, the empty request; (2) **state and history** — a header-cache entry left by an earlier read, an in-place edit of a
-result before the next read, the same input object used twice, an array that did not come out of the constructor, a read *after* the concurrent ones, the operand *after* the operation, the same examples collated twice; (3) **the same path through
+10 KiB prefetch, zero-frame files, non-contiguous arrays, limb ≠ colour counts, a BOM at the start of a name, matrices with a zero column, NaN under the mask, extents beyond 65 535 and below 0.001, the empty request, binary64 bodies, integer frame rates, data with a large mean, grid-aligned geometry, slices with negative bounds; (2) **state and history** — a header-cache entry left by an earlier read, an in-place edit of a
+result before the next read, the same input object used twice, an array that did not come out of the constructor, a read *after* the concurrent ones, the operand *after* the operation, the same examples collated twice, a result edited in place before the next read, a Pose whose body was replaced, a mask set after construction, two layouts of one format in one process; (3) **the same path through
 another class** — torch / tensorflow bodies on truncated or windowed reads and on selections by name, plain tensors where masked ones are usual, the named method next to the operator, the directory loader next to the dictionary loader (with its own arguments); (4) **compositions** — bbox → selection → bbox,
 interpolate → torch → selection, rejoin → zero_filled. Each strengthening is recorded in the last column and stays in the check; the stored faults are the regression corpus.
 
